@@ -551,6 +551,11 @@ fn do_read(conn: &Conn, side: usize, cx: &mut Context<'_>, out: &mut [u8]) -> Po
     if r.is_ready() && !conn.io.lock().unwrap()[side].raw {
         coop_consume();
     }
+    if let Poll::Ready(Ok(n)) = &r {
+        if *n > 0 {
+            crate::IO_PROGRESS.with(|p| p.set(p.get() + *n as u64));
+        }
+    }
     if crate::live_trace() {
         eprintln!("    read  conn {} side {} -> {:?}", conn.id, side, r);
     }
@@ -614,6 +619,11 @@ fn do_write(conn: &Conn, side: usize, cx: &mut Context<'_>, data: &[u8]) -> Poll
     let r = do_write_inner(conn, side, cx, data);
     if r.is_ready() && !conn.io.lock().unwrap()[side].raw {
         coop_consume();
+    }
+    if let Poll::Ready(Ok(n)) = &r {
+        if *n > 0 {
+            crate::IO_PROGRESS.with(|p| p.set(p.get() + *n as u64));
+        }
     }
     if crate::live_trace() {
         eprintln!("    write conn {} side {} {}B -> {:?}", conn.id, side, data.len(), r);
